@@ -239,7 +239,7 @@ pub fn check(rep: &Reporter) {
 	}
 	menu.push(Op::CloneKeep);
 	menu.push(Op::SwapToClone);
-	let max_depth = if rep.tier.thorough() { 10 } else { 7 };
+	let max_depth = if rep.tier.thorough() { 12 } else { 8 };
 	rep.set_rule(&format!(
 		"BFS over histories of {{register sync/async/blocking(x), register_subscription(x,y) and _raw incl. x=y, register_alias(x,y), merge(one of {} prepared modules), remove_method(x), clone-and-keep (≤2), continue-from-clone}} with x,y ∈ {{a,b,c}} up to depth {max_depth}; state key = name→(kind, handler identity up to renaming) of the live module and every kept clone; after every transition the real module(s) are observed (Ok/Err of the op, method_names(), raw_json_request to a,b,c and an unregistered name on the live module and every clone) and compared with a BTreeMap reference. Every transition is a distinct (state, op) pair.",
 		OTHERS.len()
